@@ -81,6 +81,10 @@ struct C02 : Prop {
 		std::map<uint32_t, int> used;      // response budget charged per node over the whole session (nothing is answered: no message may ever be deferred)
 		std::map<uint32_t, int> seqs;      // sequence number the library will use next for a node (loop-back plans: one task, debug mode)
 		int nph = (int) r.range(1, thorough ? 4 : 2);
+		// one stream session in sixteen: a burst of 129-190 intact single-message packets that nobody reads meanwhile - the queue keeps the
+		// newest 128 (README), still in stream order
+		bool overflow = !loop && nsess == 1 && r.chance(60);
+		if (overflow) { nph = 1; se.set("overflow", true); }
 		for (int p = 0; p < nph; p++) {
 			J ph = J::obj();
 			if (loop) {
@@ -122,13 +126,19 @@ struct C02 : Prop {
 				J tasks = J::arr(); tasks.push(ops); ph.set("tasks", tasks);
 			} else {
 				J ev = J::arr();
-				int npk = (int) r.range(2, thorough ? 30 : 16);
+				int npk = overflow ? (int) r.range(129, 190) : (int) r.range(2, thorough ? 30 : 16);
 				int t = 0, budget_msgs = 0;
 				std::vector<uint8_t> last_good;
-				for (int k = 0; k < npk && budget_msgs < 100; k++) {
+				for (int k = 0; k < npk && (overflow || budget_msgs < 100); k++) {
 					std::vector<uint8_t> bytes;
 					const char *inj = nullptr;
 					uint64_t x = r.below(100);
+					if (overflow) {
+						ref::Msg m = rnd_msg(r); m.data = {(uint8_t) k, (uint8_t) (k >> 8), r.byte()};
+						bytes = ref::frame_msgs({m});
+						J e = J::obj(); t += (int) r.range(0, 1500); e.set("at_us", t); e.set("raw", hex_of(bytes)); ev.push(e);
+						continue;
+					}
 					if (x < 10) {
 						inj = "noise";
 						// noise between packets
@@ -199,7 +209,7 @@ struct C02 : Prop {
 	size_t ops_seen = 0, good_after_bad = 0, frames_good = 0, frames_bad = 0, frames_unspec = 0, escaped_crc = 0, multi = 0;
 	std::vector<std::vector<uint8_t>> got;
 
-	void attach(Engine &) override { err_armed = false; sim::lockset_arm(false); d_from = g_from = sessions_judged = 0; ops_seen = 0; good_after_bad = frames_good = frames_bad = frames_unspec = escaped_crc = multi = 0; got.clear(); }
+	void attach(Engine &) override { err_armed = false; sim::lockset_arm(false); d_from = g_from = sessions_judged = 0; overflow_sessions = 0; ops_seen = 0; good_after_bad = frames_good = frames_bad = frames_unspec = escaped_crc = multi = 0; got.clear(); }
 
 	void after_op(Engine &e, OpRec &o) override {
 		const std::string &k = o.op->gets("op");
@@ -217,11 +227,12 @@ struct C02 : Prop {
 		// error-class plans: judged from the end of the initial drain on (start-up traffic is not part of the stream under test)
 		if (e.plan.getb("error_class") && e.plan["sessions"][(size_t) s]["phases"][(size_t) p].getb("err_begin")) { err_armed = true; d_from = e.bus.delivered.size(); g_from = got.size(); }
 	}
-	void on_session_stop(Engine &e, int) override { judge(e); sessions_judged++; d_from = e.bus.delivered.size(); g_from = got.size(); }
+	void on_session_stop(Engine &e, int s) override { judge(e, e.plan["sessions"][(size_t) s].getb("overflow")); sessions_judged++; d_from = e.bus.delivered.size(); g_from = got.size(); }
 	void at_end(Engine &e) override { if (e.plan.getb("loopback")) check_loopback(e); }
 
 	// one session: the bytes delivered to this session's receiver, decoded from a fresh framing state, against what this session's reads returned
-	void judge(Engine &e) {
+	uint64_t overflow_sessions = 0;
+	void judge(Engine &e, bool overflow = false) {
 		bool open = false;
 		std::vector<uint8_t> delivered(e.bus.delivered.begin() + (long) d_from, e.bus.delivered.end());
 		std::vector<std::vector<uint8_t>> got(this->got.begin() + (long) g_from, this->got.end());
@@ -243,6 +254,8 @@ struct C02 : Prop {
 			} else if (f.cls == ref::BAD_CRC) { frames_bad++; prev_bad = true; }
 			else { frames_unspec++; prev_bad = true; if (toks.empty() || !toks.back().wild) toks.push_back(Tok{true, {}}); }
 		}
+		// a burst nobody read: the bounded queue (128, oldest dropped) keeps the newest 128 in stream order
+		if (overflow) { overflow_sessions++; if (toks.size() > 128) toks.erase(toks.begin(), toks.end() - 128); }
 		// match got against toks (wildcards absorb anything an UNSPECIFIED frame may have produced)
 		size_t n = toks.size(), m = got.size();
 		std::vector<std::vector<char>> ok(n + 1, std::vector<char>(m + 1, 0));
@@ -295,7 +308,7 @@ struct C02 : Prop {
 		J p = J::obj();
 		p.set("frames_good", (long long) frames_good); p.set("frames_bad_crc", (long long) frames_bad); p.set("frames_unspecified", (long long) frames_unspec);
 		p.set("good_after_corrupted", (long long) good_after_bad); p.set("crc_escaped", (long long) escaped_crc); p.set("multi_message_frames", (long long) multi);
-		p.set("messages_read", (long long) got.size()); p.set("loopback_runs", e.plan.getb("loopback") ? 1 : 0); p.set("sessions_after_a_truncated_packet", e.plan["sessions"].size() > 1 ? 1 : 0); p.set("error_class_runs_normal_mode", e.plan.getb("error_class") ? 1 : 0);
+		p.set("messages_read", (long long) got.size()); p.set("loopback_runs", e.plan.getb("loopback") ? 1 : 0); p.set("sessions_after_a_truncated_packet", e.plan["sessions"].size() > 1 ? 1 : 0); p.set("error_class_runs_normal_mode", e.plan.getb("error_class") ? 1 : 0); p.set("unread_bursts_beyond_the_queue_bound", (long long) overflow_sessions);
 		p.set("loopback_downlink_packets_with_escaped_crc", (long long) e.bus.dec.crc_escapes);
 		f.set("probes", p);
 	}
